@@ -183,7 +183,9 @@ def run_history(acc: Acc, r: random.Random, workdir: str, hid: int, n_ops: int) 
 	forced = [('transpile', hp.names['r']), ('submit-bad', '__main__'), ('submit', '__main__'), ('transpile', hp.names['l']), ('transpile', hp.names['u']), ('reload-library', LIB_CLASSES), ('transpile', hp.names['r']), ('transpile', hp.names['l']),
 		# two submissions without declarations in a row; a submission refused at load time followed by accepted ones; the class stubs unloaded alone
 		('submit', '__main__', NODECL[0]), ('submit', '__main__', NODECL[1]), ('submit-bad', '__main__', LOAD_BAD[hid % 2]), ('submit', '__main__', hid % 2), ('submit-bad', '__main__', LOAD_BAD[(hid + 1) % 2]), ('submit', '__main__', 3),
-		('unload-library', LIB_CLASSES), ('submit', '__main__', 5), ('transpile', hp.names['r'])]
+		('unload-library', LIB_CLASSES), ('submit', '__main__', 5), ('transpile', hp.names['r']),
+		# the leaf unloaded alone while its importers stay loaded, then an importer transpiled: the listed open finding, met on every run
+		('load', hp.names['r']), ('unload', hp.names['l'], 'alone'), ('transpile', hp.names['r'])]
 	for step in range(n_ops + len(forced)):
 		x = r.random()
 		before = None
@@ -257,7 +259,7 @@ def run_history(acc: Acc, r: random.Random, workdir: str, hid: int, n_ops: int) 
 				if main_variant == 2 and '__main__' in loaded_now():
 					s.unload('__main__')
 					main_variant = None
-				if r.random() < 0.3:
+				if forced_index == 'alone' or (forced_index is None and r.random() < 0.3):
 					# the dependency alone: its importers stay loaded (open finding importer-unusable-after-dependency-unload)
 					acc.see('op_variant', 'unload-dependency-alone')
 					log[-1].append('alone')
